@@ -373,6 +373,25 @@ impl Property for C02 {
         if thorough { 80_000 } else { 900 }
     }
     fn run(&self, ctx: &mut Ctx) -> Result<(), Violation> {
+        if ctx.ch.chance(1, 20) {
+            // Thresholds no report can be generated for in reasonable time (2^24 coefficients take most of a
+            // minute): what can still be observed is the threshold the dealer is CONFIGURED with for a given
+            // access structure, which is where "degree exactly t-1" is decided. Narrowing, masking or
+            // byte-swapping it there shares a measurement under a smaller threshold than the client asked for.
+            for base in [1u32 << 16, 1 << 24, 1 << 31] {
+                for d in [0u32, 1, 2, 255, 256] {
+                    let tt = base.wrapping_add(d);
+                    for tt in [tt, tt.swap_bytes(), u32::MAX - d] {
+                        let a = adss::AccessStructure::from_bytes(&tt.to_le_bytes()).ok_or_else(|| Violation::new("c02.layout", "access_structure", "a 4-byte access structure does not parse"))?;
+                        let configured = star_sharks::Sharks::from(a).0;
+                        if configured != tt {
+                            return Err(Violation::new("c02.poly_degree", "threshold_narrowed", format!("a sharing asked for with threshold {} configures its dealer with threshold {}: the polynomial has degree {} instead of {}", tt, configured, configured.wrapping_sub(1), tt - 1)));
+                        }
+                    }
+                }
+            }
+            ctx.stats.probe("dealer_threshold_checked_for_huge_thresholds");
+        }
         if ctx.ch.chance(1, 100) {
             return huge_threshold(ctx);
         }
